@@ -126,8 +126,7 @@ func (x *exec) appendOp(st *State, s, t Value) Value {
 	keep := e.ctx.Name("apKeep", smt.Or(caseA, fits))
 	r := e.newRef(st, "grown")
 	capC := e.ctx.Fresh("apcap", bv64)
-	st.assume(smt.And(smt.BVCmp("bvsle", newLen, capC), smt.BVCmp("bvsle", capC, smt.BVLit(1<<62, 64))))
-	st.assume(smt.BVCmp("bvsle", newLen, smt.BVLit(1<<62, 64)))
+	st.assume(smt.And(smt.BVCmp("bvsle", newLen, capC), smt.BVCmp("bvsle", capC, smt.BVLit(1<<56, 64))))
 	for _, l := range e.leaves(elem) {
 		key, mem := x.memArr(st, elem, l)
 		sInner := e.ctx.Name("sIn", smt.Select(mem, sArr))
